@@ -321,12 +321,11 @@ class RaggedArray(IndexableArray, np.lib.mixins.NDArrayOperatorsMixin):
         datas = []
         inputs = [np.asanyarray(i) if not (hasattr(i, "dtype") or isinstance(i, Number)) else i
                   for i in inputs]
-        result_type = np.result_type(*(i.dtype if hasattr(i, "dtype") else i for i in inputs))
         for input in inputs:
             if isinstance(input, (Number, np.generic)) or (isinstance(input, np.ndarray) and input.ndim == 0):
                 datas.append(input)
             elif isinstance(input, np.ndarray) or isinstance(input, list):
-                broadcasted = self._broadcast_rows(input, dtype=result_type)
+                broadcasted = self._broadcast_rows(input, dtype=input.dtype)
                 datas.append(broadcasted.ravel())
             elif isinstance(input, RaggedArray):
                 datas.append(input.ravel())
